@@ -133,7 +133,7 @@ class LockModel:
         self.direct_cb = {}        # body id -> [Call] callback sites
         for b in prog.bodies:
             self.direct_lock[b.id] = [c for c in b.live_calls if c.callee in LOCK_CALLS]
-            self.direct_cb[b.id] = [c for c in b.live_calls if c.is_virtual or c.is_indirect]
+            self.direct_cb[b.id] = [c for c in b.live_calls if prog.is_callback(c)]
         self.can_lock = self._closure(lambda bid: bool(self.direct_lock[bid]))
         self.can_cb = self._closure(lambda bid: bool(self.direct_cb[bid]))
         # panic: undischarged sites per body
@@ -229,7 +229,7 @@ def rule_lock_a(lm, want=('a',)):
                 targets = _callee_targets(prog, c)
                 if 'a' in want:
                     key = _site_key('LOCK-a', c, live, gf, ordinal)
-                    if c.is_virtual or c.is_indirect:
+                    if prog.is_callback(c):
                         kind = dyn_fn_class(c.term['arg_tys'][0]) if c.term['arg_tys'] else None
                         obs.append(bad('LOCK-a', key,
                                        'callback (%s) invoked while %s guard %s is live: the handler cannot re-enter / lock, and a panic in it poisons the mutex'
@@ -268,7 +268,7 @@ def rule_lock_a(lm, want=('a',)):
                         path = lm.witness_path(hit[0], lambda x: prog.by_id[x].name in lm.undischarged)
                         obs.append(bad('LOCK-c', key, 'call inside the %s guard-live region reaches an undischarged panic site: %s' % (held, ' -> '.join(path)),
                                        c.where(), body=body.name, bb=b, path=path))
-                    elif c.is_virtual or c.is_indirect:
+                    elif prog.is_callback(c):
                         pass  # reported by LOCK-a
                     else:
                         obs.append(ok('LOCK-c', key, 'no engine panic site at / below this call inside the %s guard-live region' % held, c.where()))
